@@ -9,15 +9,15 @@ Import ListNotations.
 Lemma snoc_not_nil : forall (A : Type) (l : list A) (x : A), l ++ [x] <> [].
 Proof. intros A l x H. destruct l; discriminate. Qed.
 
-Lemma parse_errs_nonempty : forall src awc pe re_bad fx fuel start errs,
-  parse src awc pe re_bad fx fuel start = Done (PErrs errs) -> errs <> [].
+Lemma parse_errs_nonempty : forall src awc pe iw re_bad fx fuel start errs,
+  parse src awc pe iw re_bad fx fuel start = Done (PErrs errs) -> errs <> [].
 Proof.
-  intros src awc pe re_bad fx fuel start errs H. unfold parse in H.
+  intros src awc pe iw re_bad fx fuel start errs H. unfold parse in H.
   assert (Hf : forall st e, Done (finish st e) = Done (PErrs errs) -> errs <> []).
   { intros st e He. unfold finish in He. destruct e; inversion He; subst; discriminate. }
   destruct (parse_declarations src awc fuel start initial_state []) as [[i1 st1] errs1|errs1 e1| |];
     try discriminate.
-  - destruct (parse_rules src awc pe re_bad fx fuel i1 st1 errs1) as [[i2 st2] errs2|errs2 e2| |];
+  - destruct (parse_rules src awc pe iw re_bad fx fuel i1 st1 errs1) as [[i2 st2] errs2|errs2 e2| |];
       try discriminate.
     + apply obind_ok in H. destruct H as [la [_ H]]. destruct la as [j|].
       * apply obind_ok in H. destruct H as [k [_ H]].
@@ -29,9 +29,59 @@ Qed.
 
 Lemma lex_errs_nonempty : lex_errs_nonempty_stmt.
 Proof.
-  intros fx src pos awc pe re_bad errs H. unfold lex_from_str in H.
+  intros fx src pos awc pe iw re_bad errs H. unfold lex_from_str in H.
   apply obind_ok in H. destruct H as [s [_ H]].
   destruct (fix_header fx); eapply parse_errs_nonempty; eauto.
+Qed.
+
+(* ---- ignore_whitespace off: the white-space repair is invisible ---- *)
+Ltac iw_step := match goal with
+  | |- lbind _ ?x _ = lbind _ ?x _ => destruct x; cbn [lbind]; try reflexivity
+  | |- match ?x with _ => _ end = match ?x with _ => _ end => destruct x; try reflexivity
+  | |- (if ?x then _ else _) = (if ?x then _ else _) => destruct x; try reflexivity
+  end.
+
+Lemma parse_start_states_iw_off : forall pe fx b st off re,
+  parse_start_states pe false (with_iw b fx) st off re = parse_start_states pe false fx st off re.
+Proof.
+  intros pe fx b st off re. unfold parse_start_states.
+  cbn [with_iw fix_dangling fix_iw fix_prefix_unescape]. rewrite !andb_false_r. reflexivity.
+Qed.
+
+Lemma parse_name_iw : forall fx b i rspace name_off orig_name,
+  parse_name (with_iw b fx) i rspace name_off orig_name = parse_name fx i rspace name_off orig_name.
+Proof. reflexivity. Qed.
+
+Lemma parse_rule_iw_off : forall src pe re_bad fx b i st errs,
+  parse_rule src pe false re_bad (with_iw b fx) i st errs = parse_rule src pe false re_bad fx i st errs.
+Proof.
+  intros src pe re_bad fx b i st errs. unfold parse_rule.
+  do 4 iw_step. rewrite parse_name_iw. do 5 iw_step.
+  rewrite parse_start_states_iw_off. reflexivity.
+Qed.
+
+Lemma parse_rules_iw_off : forall src awc pe re_bad fx b fuel i st errs,
+  parse_rules src awc pe false re_bad (with_iw b fx) fuel i st errs =
+  parse_rules src awc pe false re_bad fx fuel i st errs.
+Proof.
+  intros src awc pe re_bad fx b fuel. induction fuel as [|fuel IH]; intros i st errs; [reflexivity|].
+  cbn [parse_rules]. do 3 iw_step; [apply IH|].
+  iw_step. iw_step; [apply IH|]. iw_step. iw_step. iw_step.
+  rewrite parse_rule_iw_off. iw_step. destruct a as [i' st']. apply IH.
+Qed.
+
+Lemma parse_iw_off : forall src awc pe re_bad fx b fuel start,
+  parse src awc pe false re_bad (with_iw b fx) fuel start = parse src awc pe false re_bad fx fuel start.
+Proof.
+  intros src awc pe re_bad fx b fuel start. unfold parse.
+  iw_step. destruct a as [i st]. rewrite parse_rules_iw_off. reflexivity.
+Qed.
+
+Lemma iw_off_irrelevant : iw_off_irrelevant_stmt.
+Proof.
+  intros fx b src pos awc pe re_bad. unfold lex_from_str.
+  destruct (slice_from src pos) as [s| |]; cbn [obind]; try reflexivity.
+  cbn [with_iw fix_header]. destruct (fix_header fx); apply parse_iw_off.
 Qed.
 
 (* ---- the hypotheses of the conditional theorems are satisfiable ---- *)
@@ -45,7 +95,7 @@ Proof. split; vm_compute; reflexivity. Qed.
 (* spans_index_source: the repaired variant accepts the text on which today's code is refuted,
    and its name span (18,20) selects "ID" in the text the user wrote *)
 Example spans_index_source_applies :
-  exists st, lex_from_str repaired refute_src 11 false false [] = Done (POk st) /\
+  exists st, lex_from_str repaired refute_src 11 false false false [] = Done (POk st) /\
              map r_name_span (rules st) = [(18, 20)].
 Proof. eexists. split; vm_compute; reflexivity. Qed.
 
